@@ -5,23 +5,28 @@ Correspondence: scenarios are run on the repository (manually ticked Timeline, r
 the model inside coqc (vm_compute, coq/Auto/Corr.v); every value after every operation and tick, every binding
 call and every rejected call is compared.  Oracle: written from the property text with fractions.Fraction —
 arrival tick ceil(duration / tick), exact target, monotone approach, range, binding calls, LFO range /
-periodicity / pattern read — and judges the implementation's trace alone."""
+periodicity / pattern read — and judges the implementation's trace alone.
+Second round (seeded C18-e, C18-f): histories in which timeline.ticks_per_beat is re-assigned / the clock source replaced
+mid-run (coq/Auto/Retime.v: the resolution is carried in the state of the run; theorems C18_retime_*), and several bound
+objects that compare equal without being identical (coq/Auto/Targets.v; C18_bindings_history, C18_bindings_equal_targets)."""
 import math
 from common import *
 
 PROP = "C18"
-EXTRA_TARGETS = ["Auto/Corr.vo"]
+EXTRA_TARGETS = ["Auto/Corr.vo", "Auto/CorrRetime.vo"]
 META = {
  "engine": "S-scheduler-automation",
- "text": "Coq theorems (Props/C18.v, closed under the global context) about an executable model over exact rationals of isobar/timelines/automation.py and lfo.py: for every duration N >= 1 ticks and envelope length 0 <= E <= N the envelope weights (linspace ramps written by the two slice assignments in the code's order, divided by their mean) are >= 0 and sum to N; after move_to / move_by with any duration >= 0 and envelope fraction in [0,1] the value after max(ceil(round8(duration*tpb)),1) ticks is exactly the target, every step in between moves toward it and nothing moves afterwards; whole-tick durations give exactly that many ticks despite float error; the reported value is in [lo,hi] (clip) / [lo,hi) (wrap), congruent modulo the width and unchanged when inside; every change calls every binding exactly once with the new reported value; a sine LFO stays in [min,max], repeats after ticks_per_beat/frequency ticks when that is whole and PLFO yields exactly lfo.value (sin enters as a Section variable with -1 <= sin2pi x <= 1 and sin2pi (x+1) == sin2pi x). The model is tied to the repository on every run: generated scenarios (move_to / move_by / jump_to / bind_to, overlapping and interrupted moves, clip / wrap / no range, 0-3 bindings of both kinds, ticks_per_beat 10/24/96/480, durations 0 .. 16 beats whole and fractional, envelope fractions 0 .. 1, malformed calls) are executed on a manually ticked Timeline and compared inside coqc with the model after every operation and tick (values to 1e-9, change / call pattern and rejected calls exactly); LFOs are compared with the model evaluated on a table of math.sin values and read through PLFO from scheduled tracks. LFOs and automations are also re-configured at random ticks (attribute assignment, LFO.update, Timeline.lfo under the name of an existing LFO, LFO.reset; range / boundaries / default_duration of an automation right after a call, mid-move and after arrival): the model carries the parameters in its state (theorems C18_lfo_reconfig_range / _config / _periodic, C18_timeline_lfo_in_place, C18_reconfig_auto) and the oracle judges every tick against the configuration given last. An independent Fraction oracle judges arrival tick, target, monotonicity, range, calls, LFO range / period / pattern read on the implementation's trace alone.",
+ "text": "Coq theorems (Props/C18.v, closed under the global context) about an executable model over exact rationals of isobar/timelines/automation.py and lfo.py: for every duration N >= 1 ticks and envelope length 0 <= E <= N the envelope weights (linspace ramps written by the two slice assignments in the code's order, divided by their mean) are >= 0 and sum to N; after move_to / move_by with any duration >= 0 and envelope fraction in [0,1] the value after max(ceil(round8(duration*tpb)),1) ticks is exactly the target, every step in between moves toward it and nothing moves afterwards; whole-tick durations give exactly that many ticks despite float error; the reported value is in [lo,hi] (clip) / [lo,hi) (wrap), congruent modulo the width and unchanged when inside; every change calls every binding exactly once with the new reported value; a sine LFO stays in [min,max], repeats after ticks_per_beat/frequency ticks when that is whole and PLFO yields exactly lfo.value (sin enters as a Section variable with -1 <= sin2pi x <= 1 and sin2pi (x+1) == sin2pi x). The model is tied to the repository on every run: generated scenarios (move_to / move_by / jump_to / bind_to, overlapping and interrupted moves, clip / wrap / no range, 0-3 bindings of both kinds, ticks_per_beat 10/24/96/480, durations 0 .. 16 beats whole and fractional, envelope fractions 0 .. 1, malformed calls) are executed on a manually ticked Timeline and compared inside coqc with the model after every operation and tick (values to 1e-9, change / call pattern and rejected calls exactly); LFOs are compared with the model evaluated on a table of math.sin values and read through PLFO from scheduled tracks. LFOs and automations are also re-configured at random ticks (attribute assignment, LFO.update, Timeline.lfo under the name of an existing LFO, LFO.reset; range / boundaries / default_duration of an automation right after a call, mid-move and after arrival): the model carries the parameters in its state (theorems C18_lfo_reconfig_range / _config / _periodic, C18_timeline_lfo_in_place, C18_reconfig_auto) and the oracle judges every tick against the configuration given last. The timeline's resolution is changed in the middle of a run as well (timeline.ticks_per_beat = n, or a new clock source; before the first tick, after one tick, mid-period / mid-move, after whole periods / after arrival; finer, coarser, multiples, divisors; once or twice): Auto/Retime.v carries the resolution in the state of a history, theorems C18_retime_lfo_range / _phase / _periodic_beats / _segment say that after any such history the value is in range, is the waveform at the BEAT position (every tick counted with the tick length in force at that tick) and repeats every 1/frequency beats across the change, C18_retime_move_to / _move_by that a move made after a change lasts ceil(duration / new tick) ticks and a move under way keeps its ticks; the oracle judges period in beats across the change, and for a move under way only what both readings of 'tick' agree on. Several targets bound to one automation that compare equal at bind time without being identical (dataclass voices / strips with equal fields, a class defining __eq__, next to plain objects, both modes; bound upfront, mid-move, after arrival, after jump_to): Auto/Targets.v, theorems C18_bindings_history (after any history every binding ever made is called, once per binding, in order) and C18_bindings_equal_targets (whatever the targets' equality keys); every target's identity is recorded by the driver and every one must receive every new value. An independent Fraction oracle judges arrival tick, target, monotonicity, range, calls, LFO range / period / pattern read on the implementation's trace alone.",
  "note": "Trusted: Coq kernel + VM; the Python harness and driver; libm's sin (math.sin values enter the model as a table; the theorems assume only boundedness and periodicity of sin2pi as Section hypotheses); IEEE double arithmetic of numpy/CPython is validated against exact rationals to 1e-9, not modelled, so 'exactly the target' is exact in the model and 1e-9 on the implementation. int(envelope * ticks) and round(x, 8) are modelled on exact rationals; cases where the float product and the exact product fall on different sides of an integer / rounding tie are discarded (counted). Re-configuration after construction (lfo.min/max/frequency assigned, LFO.update, Timeline.lfo(name=existing), LFO.reset; automation.range / boundaries / default_duration re-assigned, also mid-move) is modelled, proved (in range of the CURRENT bounds after any history, period of the CURRENT frequency, moves arrive as they would have) and compared on every run; the value shown between a re-configuration and the next tick and binding calls at a range assignment are compared with the model only. Not covered: bounce_to, curve='exponential', ease, boundaries='fold' (unimplemented in isobar), LFO.pause/unpause/stop, value_changed_callbacks (never invoked by isobar).",
 }
 
-HEADER = """From Isobar Require Import Base.Prelude Auto.Automation Auto.Lfo Auto.Corr.
+HEADER = """From Isobar Require Import Base.Prelude Auto.Automation Auto.Lfo Auto.Corr Auto.Retime Auto.CorrRetime.
 From Coq Require Import QArith Uint63.
 Local Open Scope Q_scope.
 Definition S_ (o : option op) (e : option (int * list (Z * int))) (t : list int) := mkSeg o e t.
 Definition LS_ (o : option lfo_op) (v : option int) (t : list int) := mkLseg o v t.
+Definition RS_ (o : option ra_op) (e : option (int * list (Z * int))) (t : list int) := mkRseg o e t.
+Definition RLS_ (o : option rl_op) (v : option int) (t : list int) := mkRlseg o v t.
 """
 
 TPBS = [10, 24, 96, 480]
@@ -63,6 +68,19 @@ def op_term(op):
     raise CheckError("op %r" % (op,))
 
 
+def has_retime(sc):
+    return any(sg.get("op") is not None and sg["op"][0] == "set_tpb" for sg in sc["segs"])
+
+
+def rop_term(op):
+    """an operation of a history with resolution changes (Auto/Retime.v)"""
+    if op is None:
+        return "None"
+    if op[0] == "set_tpb":
+        return "(Some (RATpb %d%%Z))" % op[1]
+    return "(Some (RA %s))" % op_term(op)[len("(Some "):-1]
+
+
 def auto_init_term(sc):
     rng = "None" if sc.get("range") is None else "(Some (%s, %s))" % (qlit(sc["range"][0]), qlit(sc["range"][1]))
     b = "Wrap" if sc.get("boundaries") == "wrap" else "Clip"
@@ -85,16 +103,20 @@ def number_bind_ops(sc):
 def auto_term(sc, res):
     """Coq boolean: the model reproduces everything the implementation showed on this scenario.
     Returns None when the trace cannot be expressed (implementation raised inside a tick: oracle reports)."""
-    segs = ["S_ None (Some (%s%%uint63, [])) []" % ilit(res["init"])]
+    rt = has_retime(sc)      # the resolution changes along the way: the history runs on Auto/Retime.v (ra_step)
+    S, term = ("RS_", rop_term) if rt else ("S_", op_term)
+    segs = ["%s None (Some (%s%%uint63, [])) []" % (S, ilit(res["init"]))]
     for sg, r in zip(sc["segs"], res["segs"]):
         if r["raise"] is not None:
             if r["ticks"] or r["value"] is not None:
                 return None
-            segs.append("S_ %s None []" % op_term(sg.get("op")))
+            segs.append("%s %s None []" % (S, term(sg.get("op"))))
             break
         calls = lst(["(%d%%Z, %s%%uint63)" % (c[0], ilit(c[1])) for c in r["calls"]])
         ticks = lst([ilit(v, 0 if c == 0 else 1) for v, c in r["ticks"]])
-        segs.append("S_ %s (Some (%s%%uint63, %s)) %s%%uint63" % (op_term(sg.get("op")), ilit(r["value"]), calls, ticks))
+        segs.append("%s %s (Some (%s%%uint63, %s)) %s%%uint63" % (S, term(sg.get("op")), ilit(r["value"]), calls, ticks))
+    if rt:
+        return "check_rsegs (%d%%Z, %s) [%s]" % (sc["tpb"], auto_init_term(sc), ";\n ".join(segs))
     return "check_segs %d%%Z %s [%s]" % (sc["tpb"], auto_init_term(sc), ";\n ".join(segs))
 
 
@@ -131,14 +153,17 @@ def vouchable(sc):
     """False when int(envelope * ticks) differs between float and exact arithmetic (the model works on exact
     rationals), or round(x, 8) is at a tie"""
     dd = sc.get("default_duration")
+    tpb = sc["tpb"]
     for sg in sc["segs"]:
         op = sg.get("op")
         if op is not None and op[0] == "set_default":
             dd = op[1]
+        if op is not None and op[0] == "set_tpb":
+            tpb = op[1]
         if op is None or op[0] not in ("move_to", "move_by"):
             continue
         d = op[2] if op[2] is not None else (0.0 if dd is None else dd)
-        n = model_ticks(sc["tpb"], d)
+        n = model_ticks(tpb, d)
         if n is None:
             return False
         e = 0.5 if op[3] is None else op[3]
@@ -249,6 +274,16 @@ def oracle_auto(sc, info, res):
                 cfg["range"] = op[1]
             elif op[0] == "set_boundaries":
                 cfg["boundaries"] = op[1]
+            elif op[0] == "set_tpb":
+                # the timeline's resolution changes: from now on a tick lasts 1 / op[1] beats, and a move made from now on
+                # lasts ceil(duration / that tick) ticks.  For a move under way the text does not say which tick
+                # length counts: it has to be on target once both readings agree that it has arrived (the ticks
+                # counted at the call, or the beats that were left re-counted in new ticks), approach monotonically and
+                # stay put afterwards; when exactly in between is compared with the model only
+                if t < arrive:
+                    left = arrive - t
+                    arrive = t + max(left, math.ceil(Fraction(left * op[1], tpb)))
+                tpb = op[1]
         # observation right after the operation
         x = r["value"]
         in_range(x, "after %s" % (op,))
@@ -263,6 +298,11 @@ def oracle_auto(sc, info, res):
             ids = [c[0] for c in r["calls"]]
             if ids != list(range(nbind)) or not all(c[1] == x and c[2] for c in r["calls"]):
                 bad.append(("binding-call", "jump_to(%r): value %r, bindings received %r (expected one call each of %d bindings with the value)" % (op[1], x, r["calls"], nbind), t))
+        if op is not None and op[0] == "set_tpb":
+            if x != prev:
+                bad.append(("moves-before-tick", "changing the resolution changed the reported value (%r -> %r)" % (prev, x), t))
+            if r["calls"]:
+                bad.append(("binding-call", "changing the resolution called bindings %r" % (r["calls"],), t))
         if op is not None and op[0] in ("set_range", "set_boundaries", "set_default") and valid:
             # the reported value is the current value clipped / wrapped into the range declared now
             if t >= arrive and cv is not None and not approx_report(cfg, x, cv):
@@ -603,6 +643,207 @@ def gen_reconfig(run, n):
     return cases
 
 
+# ---- the timeline's resolution is re-configured in the middle of a run ---------------------------------------------
+RETIME_TPBS = [8, 10, 12, 16, 24, 48, 96, 120]
+
+
+def retime_seg(rng, n, ticks):
+    """timeline.ticks_per_beat = n (public setter), or a new clock source with that resolution"""
+    return ({"op": ["set_tpb", n, rng.choice(["attr", "attr", "clock"])], "ticks": ticks}, {})
+
+
+def gen_auto_retime(run, n):
+    """the resolution changes after the automation has ticked: while a move is under way (it must still arrive exactly,
+    monotonically, and stay put), after arrival, before the first tick; moves made afterwards last ceil(duration / NEW tick)
+    ticks (durations are beats: whole and fractional numbers of ticks of the resolution in force at the call, default
+    durations whose tick count differs between the two resolutions)"""
+    rng = run.rng
+    cases = []
+    for ci in range(n):
+        tpb = cur = rng.choice(RETIME_TPBS)
+        rangecfg = None
+        if rng.random() < 0.6:
+            lo, hi = rng.choice(RANGES)
+            rangecfg = (lo, hi, rng.choice(["clip", "wrap"]))
+        initial = None if rng.random() < 0.25 else rand_value(rng, rangecfg)
+        default_duration = rng.choice([None, None, 0.25, 0.5, 1.0])
+        segs = [bind_seg(rng) for _ in range(rng.choice([0, 1, 1, 2]))]
+        if rng.random() < 0.15:
+            new = rng.choice([x for x in RETIME_TPBS if x != cur])
+            segs.append(retime_seg(rng, new, 0))
+            cur = new
+            run.dist("auto.retime.before-first-tick")
+        nops = rng.randint(2, 4)
+        for oi in range(nops + 1):
+            kind = rng.choice(["move_to", "move_to", "move_by"])
+            D = rand_duration(rng, cur)
+            if default_duration is not None and rng.random() < 0.3:
+                D = None
+            e = rand_env(rng) if rng.random() < 0.9 else None
+            v = rand_value(rng, rangecfg)
+            if kind == "move_by":
+                v = rng.choice([v, -v, v / 4, 1.0, -0.5])
+            n_t = max(math.ceil((Fraction(default_duration) if D is None else D) * cur), 1)
+            mode = rng.random()
+            new = rng.choice([x for x in RETIME_TPBS if x != cur])
+            if oi == nops or mode >= 0.8:
+                # a move at the resolution in force (the last one always: made after every change), run to arrival
+                segs.append(mk_move(kind, v, D, e, n_t + rng.choice([0, 1, 3])))
+                if cur != tpb:
+                    run.dist("auto.retime.move-after-change.%s" % ("default-duration" if D is None else "explicit"))
+                continue
+            if mode < 0.45:
+                k = rng.randint(1, n_t - 1) if n_t > 1 and rng.random() < 0.85 else 0
+                segs.append(mk_move(kind, v, D, e, k))
+                left = n_t - k
+                segs.append(retime_seg(rng, new, max(left, math.ceil(Fraction(left * new, cur))) + rng.choice([0, 1, 3])))
+                run.dist("auto.retime.%s" % ("right-after-the-call" if k == 0 else "mid-move"))
+            else:
+                segs.append(mk_move(kind, v, D, e, n_t + rng.choice([0, 1])))
+                segs.append(retime_seg(rng, new, rng.choice([0, 0, 1, 2])))
+                run.dist("auto.retime.after-arrival")
+            run.dist("auto.retime.%s" % ("finer" if new > cur else "coarser"))
+            cur = new
+        cases.append(make_case(tpb, segs, rangecfg, initial, default_duration, rng.choice([None, None, 1, 3]), tag="retime"))
+    return cases
+
+
+def gen_lfo_retime(run, n):
+    """LFO histories in which timeline.ticks_per_beat is re-assigned (or the clock source replaced) before the first tick,
+    after one tick, mid-period, after whole periods; to a finer / coarser resolution, a multiple or divisor of the old
+    one or neither; once or twice, alone or together with re-configurations of the LFO itself; long enough after the
+    change to cover more than one period of beats"""
+    rng = run.rng
+    out = []
+    fixed = [
+        (16, 1.0, (0.0, 1.0), [(None, 32), (["set_tpb", 8, "attr"], 24)]),
+        (12, 0.5, (-1.0, 3.0), [(None, 24), (["set_tpb", 8, "attr"], 48)]),
+        (8, 0.25, (20.0, 100.0), [(None, 16), (["set_tpb", 24, "clock"], 130)]),
+        (24, 2.0, (0.0, 127.0), [(None, 5), (["set_tpb", 10, "attr"], 9), (["set_tpb", 96, "clock"], 70), (["set", "max", 64.0], 50)]),
+        (10, 1.0, (2.0, 5.0), [(None, 0), (["set_tpb", 24, "attr"], 30), (["update", [["frequency", 3.0]]], 5), (["set_tpb", 12, "attr"], 10)]),
+        (48, 4.0, (60.0, 72.0), [(None, 1), (["set_tpb", 16, "attr"], 9), (["reset"], 3), (["set_tpb", 120, "clock"], 45)]),
+    ]
+    for tpb, f, (lo, hi), segs in fixed[:n]:
+        out.append({"tpb": tpb, "freq": f, "min": lo, "max": hi, "every": 1 + len(out) % 3, "tag": "retime-fixed",
+                    "segs": [{"op": op, "ticks": t} for op, t in segs]})
+    while len(out) < n:
+        tpb = cur = rng.choice(RETIME_TPBS)
+        f = rng.choice([0.25, 0.5, 1.0, 1.0, 2.0, 2.0, 4.0, 0.75, 1.5, 3.0, 0.3, round(rng.uniform(0.2, 6), 2)])
+        lo, hi = rng.choice(LFO_RANGES)
+        sc = {"tpb": tpb, "freq": f, "min": lo, "max": hi, "every": rng.choice([1, 2, 3, 5]), "tag": "retime", "segs": []}
+        budget = 420
+        F = Fraction(f)
+        for ri in range(rng.choice([1, 1, 1, 2])):
+            per = Fraction(cur) / F            # ticks per period at the resolution in force
+            r = rng.random()
+            if ri == 0 and r < 0.12:
+                k, when = 0, "before-first-tick"
+            elif r < 0.3:
+                k, when = 1, "after-one-tick"
+            elif r < 0.7:
+                k, when = max(2, int(per * rng.choice([Fraction(1, 8), Fraction(1, 3), Fraction(1, 2), Fraction(5, 8), Fraction(9, 8)]))), "mid-period"
+            else:
+                k, when = max(1, int(per) * rng.choice([1, 1, 2])), ("after-whole-periods" if per.denominator == 1 else "mid-period")
+            k = min(k, 150)
+            budget -= k
+            if ri == 0:
+                sc["segs"].append({"op": None, "ticks": k})
+            else:
+                sc["segs"][-1]["ticks"] = k
+            new = rng.choice([x for x in RETIME_TPBS if x != cur and Fraction(x) / F <= 200])
+            run.dist("lfo.retime.when.%s" % when)
+            run.dist("lfo.retime.ratio.%s" % ("multiple" if new % cur == 0 else "divisor" if cur % new == 0 else "finer" if new > cur else "coarser"))
+            cur = new
+            post = min(int(Fraction(cur) / F * rng.choice([Fraction(5, 4), Fraction(3, 2), Fraction(9, 4)])) + 2, max(budget, 20))
+            budget -= post
+            sc["segs"].append({"op": ["set_tpb", new, rng.choice(["attr", "attr", "clock"])], "ticks": post})
+        if rng.random() < 0.35:
+            # the LFO itself is re-configured as well, after the resolution change
+            nlo, nhi = new_lfo_range(rng, {"min": lo, "max": hi}, run)
+            op = rng.choice([["set", "max", max(nhi, lo)], ["update", [["min", nlo], ["max", nhi]]], ["reset"],
+                             ["set", "frequency", rng.choice([1.0, 2.0, 0.5])]])
+            sc["segs"].append({"op": op, "ticks": min(max(budget, 10), 60)})
+        out.append(sc)
+    return out
+
+
+# ---- several bound objects, equal but not identical --------------------------------------------------------------
+BIND_KINDS = [("attr", "plain"), ("method", "plain"), ("attr", "dc"), ("method", "dc"), ("attr", "eq"), ("method", "eq")]
+
+
+def bind_kind_seg(mode, kind, key, ticks=0):
+    """mode/kind/key: plain = a plain object (identity equality); dc = a dataclass whose fields (key, and for attr mode the
+    level, created with the automation's current value) are equal for equal keys; eq = a class defining __eq__ by key.
+    The keyword arguments of a method binding follow the key, so that equal keys give equal bindings"""
+    kw = {} if mode == "attr" else [{}, {"channel": 3}][key % 2]
+    return ({"op": ["bind", mode if kind == "plain" else "%s/%s/%d" % (mode, kind, key), kw], "ticks": ticks}, {})
+
+
+def gen_bind_equal(run, n):
+    """2-5 targets bound to one automation, of which a group of 2-4 compare EQUAL at bind time without being identical
+    (same class, same key, attr-mode dataclasses created with the current value), next to targets of other kinds / modes /
+    keys; bound before the first move, while a move is under way, after arrival / after a jump_to; every one of them must
+    receive every new value (ticks of moves made afterwards, jump_to)"""
+    rng = run.rng
+    cases = []
+    for ci in range(n):
+        tpb = rng.choice(TPBS)
+        rangecfg = None
+        if rng.random() < 0.6:
+            lo, hi = rng.choice(RANGES)
+            rangecfg = (lo, hi, rng.choice(["clip", "wrap"]))
+        initial = rng.choice([None, 0.0, 0.0, rand_value(rng, rangecfg)])
+        mode, kind = BIND_KINDS[2 + (ci % 4)] if rng.random() < 0.9 else rng.choice(BIND_KINDS[:2])
+        key = rng.choice([0, 1])
+        group = [bind_kind_seg(mode, kind, key) for _ in range(rng.choice([2, 2, 3, 4]))]
+        others = []
+        for _ in range(rng.choice([0, 1, 1, 2])):
+            m2, k2 = rng.choice(BIND_KINDS)
+            others.append(bind_kind_seg(m2, k2, rng.choice([0, 1, 2])))
+        run.dist("bind.equal-group.%s/%s.size%d" % (mode, kind, len(group)))
+        for sg, _ in others:
+            run.dist("bind.other.%s" % "/".join((sg["op"][1] + "/plain").split("/")[:2]))
+        binds = group + others
+        rng.shuffle(binds)
+        when = rng.choice(["upfront", "upfront", "mid-move", "after-arrival", "after-jump"])
+        run.dist("bind.when.%s" % when)
+
+        def a_move(ticks_mode):
+            D = rand_duration(rng, tpb)
+            n_t = max(math.ceil(D * tpb), 1)
+            kind_ = rng.choice(["move_to", "move_to", "move_by"])
+            v = rand_value(rng, rangecfg)
+            if kind_ == "move_by":
+                v = rng.choice([v, -v, 1.0, -0.5, 2.5])
+            ticks = n_t + rng.choice([0, 1, 2]) if ticks_mode == "arrive" else (rng.randint(1, n_t - 1) if n_t > 1 else 0)
+            return mk_move(kind_, v, D, rand_env(rng), ticks), n_t - ticks
+        segs = []
+        if when == "upfront":
+            segs += binds
+        else:
+            segs += binds[:1]
+            if when == "mid-move":
+                mv, left = a_move("part")
+                segs.append(mv)
+                segs += binds[1:]
+                segs[-1][0]["ticks"] = max(left, 0) + 1
+            elif when == "after-arrival":
+                segs.append(a_move("arrive")[0])
+                segs += binds[1:]
+            else:
+                segs.append(({"op": ["jump_to", rand_value(rng, rangecfg)], "ticks": rng.choice([0, 1])}, {}))
+                segs += binds[1:]
+        for _ in range(rng.randint(1, 3)):
+            if rng.random() < 0.25:
+                segs.append(({"op": ["jump_to", rand_value(rng, rangecfg)], "ticks": rng.choice([0, 1, 2])}, {}))
+            else:
+                segs.append(a_move("arrive")[0])
+        # a guaranteed change of the value at the end, so that every target has something to receive
+        segs.append(mk_move("move_by", rng.choice([1.0, -0.5, 2.5]), Fraction(rng.choice([2, 3, 5]), tpb), rng.choice([0.0, 0.5]), 7))
+        cases.append(make_case(tpb, segs, rangecfg, initial, None, rng.choice([None, None, 1]), tag="bind-equal"))
+    return cases
+
+
 def gen_malformed(run):
     """calls outside the property's domain: the real code rejects some and accepts others; compared with the model only"""
     cases = []
@@ -648,6 +889,14 @@ def lfo_props(params):
     return [(k, v) for k, v in params if k in LFO_KEYS]
 
 
+def lfo_rop_term(op):
+    """an operation of an LFO history with resolution changes (Auto/Retime.v)"""
+    if op is not None and op[0] == "set_tpb":
+        return "(Some (RLTpb %d%%Z))" % op[1]
+    t = lfo_op_term(op)
+    return t if t == "None" else "(Some (RL %s))" % t[len("(Some "):-1]
+
+
 def lfo_op_term(op):
     if op is None or op[0] in ("tl_other", "new_pattern"):
         return "None"
@@ -661,11 +910,15 @@ def lfo_script_term(sc, res):
     """Coq boolean: the model reproduces every value the implementation showed, and Timeline.lfo found / created
     the LFOs the model says"""
     tpb = sc["tpb"]
+    rt = has_retime(sc)     # the resolution changes along the way: the history runs on Auto/Retime.v (rl_step)
+    LS, term = ("RLS_", lfo_rop_term) if rt else ("LS_", lfo_op_term)
     F, t = Fraction(sc["freq"]), Fraction(0)
     tab, segs, extra, others = {}, [], [], []
     for sg, r in zip(sc["segs"], res["segs"]):
         op = sg.get("op")
         if op is not None:
+            if op[0] == "set_tpb":
+                tpb = op[1]
             if op[0] == "reset":
                 t = Fraction(0)
             elif op[0] == "set" and op[1] == "frequency":
@@ -685,11 +938,11 @@ def lfo_script_term(sc, res):
             t += Fraction(1, tpb)
             x = t * F
             tab[(x.numerator, x.denominator)] = math.sin(2 * math.pi * float(x % 1))
-        segs.append("LS_ %s %s %s%%uint63" % (lfo_op_term(op), "None" if op is None else "(Some %s%%uint63)" % ilit(r["value"]),
+        segs.append("%s %s %s %s%%uint63" % (LS, term(op), "None" if op is None else "(Some %s%%uint63)" % ilit(r["value"]),
                                             lst([ilit(v[0]) for v in r["ticks"]])))
     table = lst(["se %d %d %s" % (n, d, ilit(v, 0, 10 ** 15)) for (n, d), v in tab.items()])
-    return " && ".join(["check_lfo_script %s %d%%Z %s %s %s %s%%uint63 %s" % (
-        table, tpb, qlit(sc["freq"]), qlit(sc["min"]), qlit(sc["max"]), ilit(res["init"]), lst(segs))] + extra)
+    return " && ".join(["%s %s %d%%Z %s %s %s %s%%uint63 %s" % (
+        "check_lfo_retime" if rt else "check_lfo_script", table, sc["tpb"], qlit(sc["freq"]), qlit(sc["min"]), qlit(sc["max"]), ilit(res["init"]), lst(segs))] + extra)
 
 
 def oracle_lfo_script(sc, res):
@@ -716,10 +969,16 @@ def oracle_lfo_script(sc, res):
     if not res.get("registered"):
         bad.append(("not-registered", "timeline.lfo() did not register the LFO", 0))
     flat = []              # value after every tick
-    stretches = [[0, dict(cur), True]]    # first tick index, configuration, judged — ticks between two re-configurations
+    tpb = sc["tpb"]        # the resolution in force (timeline.ticks_per_beat may be re-assigned along the way)
+    stretches = [[0, dict(cur), True, tpb]]    # first tick index, configuration, judged, resolution — ticks between two re-configurations
+    beat = Fraction(0)     # beats elapsed: every tick lasts 1 / (the resolution in force at that tick)
+    seen_at = {}           # beat position -> (tick, value) since the LFO's own configuration was last touched
     for sg, r in zip(sc["segs"], res["segs"]):
         op = sg.get("op")
         if op is not None:
+            if op[0] == "set_tpb":
+                tpb = op[1]
+                stretches.append([len(flat), dict(cur), known, tpb])
             if op[0] == "set":
                 cur[op[1]] = op[2]
             elif op[0] == "update":
@@ -730,21 +989,33 @@ def oracle_lfo_script(sc, res):
                 else:
                     known = False
             if op[0] in ("set", "update", "tl_lfo", "reset"):
-                stretches.append([len(flat), dict(cur), known])
+                stretches.append([len(flat), dict(cur), known, tpb])
+                seen_at = {}
             if any(p != r["value"] for p in r["pattern"]):
                 bad.append(("lfo-pattern", "after %r: lfo.value %r, pattern reads %r" % (op, r["value"], r["pattern"]), len(flat)))
         for x, p1, p2, p3, b in r["ticks"]:
             flat.append(x)
             k = len(flat)
             in_range(x, "tick %d" % k, k)
+            # "repeats with period 1 / frequency beats": a beat is ticks_per_beat ticks of the resolution in force, so the
+            # value one period of BEATS earlier — possibly before a change of the resolution — must be this one
+            beat += Fraction(1, tpb)
+            if known and cur["frequency"] > 0:
+                before = seen_at.get(beat - 1 / Fraction(cur["frequency"]))
+                lo, hi = cur["min"], cur["max"]
+                if before is not None and abs(before[1] - x) > 1e-9 * max(1.0, abs(lo), abs(hi), abs(hi - lo)):
+                    bad.append(("lfo-not-periodic", "frequency %r: value after tick %d (beat %s) is %r, one period (%s beats) later, after tick %d "
+                                "(beat %s, ticks_per_beat now %d), it is %r" % (cur["frequency"], before[0], beat - 1 / Fraction(cur["frequency"]),
+                                                                                 before[1], 1 / Fraction(cur["frequency"]), k, beat, tpb, x), k))
+                seen_at[beat] = (k, x)
             if not (p1 == x and p2 == x and p3 == x and (b == x or not known)):
                 bad.append(("lfo-pattern", "tick %d: lfo.value %r, pattern reads %r %r, fresh pattern %r, bound attribute %r" % (k, x, p1, p2, p3, b), k))
-    for i, (start, cfg, judged) in enumerate(stretches):
+    for i, (start, cfg, judged, stpb) in enumerate(stretches):
         end = stretches[i + 1][0] if i + 1 < len(stretches) else len(flat)
         vals = flat[start:end]
         if not judged or cfg["frequency"] <= 0:
             continue
-        period = Fraction(sc["tpb"]) / Fraction(cfg["frequency"])
+        period = Fraction(stpb) / Fraction(cfg["frequency"])
         if period.denominator != 1:
             continue
         p = int(period)
@@ -894,6 +1165,9 @@ def snippet_lfo_script(sc):
                 lines.append("tl.lfo(%r%s); show('other lfo')" % (dict(op[1]), ", name='other%d'" % nother if op[2] else ""))
             elif op[0] == "reset":
                 lines.append("lfo.reset(); show('reset')")
+            elif op[0] == "set_tpb":
+                lines.append(("tl.clock_source = iso.DummyClock(ticks_per_beat=%d)" % op[1] if op[2] == "clock" else "tl.ticks_per_beat = %d" % op[1])
+                             + "; show('resolution now %d ticks per beat')" % op[1])
             elif op[0] == "new_pattern":
                 lines.append("p = iso.PLFO(lfo); show('new PLFO')")
         if sg.get("ticks"):
@@ -917,6 +1191,13 @@ def snippet_auto(sc, upto_tick=None):
              "    def __init__(s, i): s.i = i",
              "    def __setattr__(s, k, v): object.__setattr__(s, k, v); k == 'level' and print('   binding', s.i, 'attr <-', v)",
              "    def set_level(s, value, **kw): print('   binding', s.i, 'method <-', value, kw)",
+             "class V(T):   # value type: equal when key and level are equal (like a dataclass)",
+             "    def __init__(s, i, key, level): object.__setattr__(s, 'i', i); object.__setattr__(s, 'key', key); object.__setattr__(s, 'level', level)",
+             "    def __eq__(s, o): return type(o) is V and (o.key, o.level) == (s.key, s.level)",
+             "class N(T):   # defines __eq__ by name",
+             "    def __init__(s, i, key): s.i = i; s.key = key",
+             "    def __eq__(s, o): return type(o) is N and o.key == s.key",
+             "    def __hash__(s): return hash(s.key)",
              "tl = iso.Timeline(output_device=Dev(), clock_source=iso.DummyClock(ticks_per_beat=%d))" % sc["tpb"],
              "a = tl.automation(%s); print('initial', a.value)" % ", ".join(kw), "t = 0"]
     for sg in sc["segs"]:
@@ -933,11 +1214,17 @@ def snippet_auto(sc, upto_tick=None):
                 lines.append("a.boundaries = %r; print('boundaries re-assigned ->', a.value)" % op[1])
             elif op[0] == "set_default":
                 lines.append("a.default_duration = %r" % op[1])
+            elif op[0] == "set_tpb":
+                lines.append(("tl.clock_source = iso.DummyClock(ticks_per_beat=%d)" % op[1] if op[2] == "clock" else "tl.ticks_per_beat = %d" % op[1])
+                             + "; print('resolution now %d ticks per beat ->', a.value)" % op[1])
             elif op[0] == "bind":
-                if op[1] == "attr":
-                    lines.append("a.bind_to(T(%d), 'level')" % op[-1])
+                parts = op[1].split("/")
+                kind, key = (parts[1] if len(parts) > 1 else "plain"), (int(parts[2]) if len(parts) > 2 else 0)
+                ctor = {"plain": "T(%d)" % op[-1], "dc": "V(%d, %d, a.value)" % (op[-1], key), "eq": "N(%d, %d)" % (op[-1], key)}[kind]
+                if parts[0] == "attr":
+                    lines.append("a.bind_to(%s, 'level')" % ctor)
                 else:
-                    lines.append("a.bind_to(T(%d), 'set_level', mode='method', **%r)" % (op[-1], op[2]))
+                    lines.append("a.bind_to(%s, 'set_level', mode='method', **%r)" % (ctor, op[2]))
         if sg.get("ticks"):
             lines.append("for _ in range(%d): tl.tick(); t += 1; print('tick', t, a.value)" % sg["ticks"])
     return "\n".join(lines)
@@ -985,6 +1272,7 @@ def run_autos(run, cases):
         run.dist("auto.tpb%d" % sc["tpb"])
         run.dist("auto.range.%s" % (sc["boundaries"] if sc["range"] else "none"))
         cur_dd = sc.get("default_duration") or 0.0
+        cur_tpb = sc["tpb"]
         for sg in sc["segs"]:
             op = sg.get("op")
             if op is None:
@@ -992,9 +1280,14 @@ def run_autos(run, cases):
             run.dist("op.%s" % op[0])
             if op[0] == "set_default":
                 cur_dd = op[1]
+            if op[0] == "set_tpb":
+                cur_tpb = op[1]
+                run.dist("retime.how.%s" % op[2])
+            if op[0] == "bind":
+                run.dist("bind.kind.%s" % "/".join((op[1] + "/plain").split("/")[:2]))
             if op[0] in ("move_to", "move_by"):
                 d = op[2] if op[2] is not None else cur_dd
-                n = model_ticks(sc["tpb"], d)
+                n = model_ticks(cur_tpb, d)
                 run.dist("duration.%s" % ("zero" if n == 0 else "one-tick" if n == 1 else "negative" if (n or 0) < 0 else
                                           "short" if (n or 0) <= 32 else "long" if (n or 0) <= 1000 else "very-long"))
                 e = 0.5 if op[3] is None else op[3]
@@ -1017,6 +1310,15 @@ def run_autos(run, cases):
         if not vouchable(sc):
             run.discard("float and exact arithmetic disagree on int(envelope*ticks) / round(x,8) tie: model cannot vouch")
             continue
+        shown = [res["init"]] + [r["value"] for r in res["segs"]] + [x for r in res["segs"] for x, _ in r["ticks"]]
+        if any(x is not None and not math.isfinite(x) for x in shown):
+            # nothing to compare with the model: the oracle has judged the trace (an infinite / NaN value is never on target)
+            if not bad:
+                run.violation({"kind": "non-finite-value", "site": "Automation"}, {
+                    "case": {"scenario": public(sc), "oracle_info": info_json(info), "what": "automation"},
+                    "observed": "automation.value is not a finite number: %r" % [x for x in shown if x is not None and not math.isfinite(x)][:3],
+                    "python": snippet_auto(sc)})
+            continue
         term = auto_term(sc, res)
         if term is None:
             if not bad:
@@ -1038,7 +1340,7 @@ def run_autos(run, cases):
             continue      # the oracle already reported this case with its failing input
         run.violation({"kind": "correspondence", "site": "Automation"}, {
             "case": {"scenario": public(sc), "oracle_info": info_json(info), "what": "automation"},
-            "observed": "implementation and model (coq/Auto/Automation.v) disagree on this scenario: "
+            "observed": "implementation and model (coq/Auto/Automation.v; coq/Auto/Retime.v ra_step when the resolution changes) disagree on this scenario: "
                         "a value after some operation/tick differs by more than 1e-9, or a binding call / rejected call differs",
             "implementation": {"init": res["init"], "segs": [{"raise": r["raise"], "value": r["value"], "calls": r["calls"],
                                                                "ticks": r["ticks"][:40]} for r in res["segs"]]},
@@ -1135,9 +1437,10 @@ def run_lfo_scripts(run, scs):
             continue
         run.violation({"kind": "correspondence", "site": "LFO"}, {
             "case": {"scenario": sc, "what": "lfo_script"},
-            "observed": "implementation and model (coq/Auto/Lfo.v lfo_run / tl_lfo) disagree on this history: lfo.value after some "
-                        "re-configuration or tick differs by more than 1e-9 from the waveform of the configuration given last at the "
-                        "running clock, or Timeline.lfo(name=...) did not find / create the LFO the model says",
+            "observed": "implementation and model (coq/Auto/Lfo.v lfo_run / tl_lfo; coq/Auto/Retime.v rl_run when the resolution changes) disagree on "
+                        "this history: lfo.value after some re-configuration or tick differs by more than 1e-9 from the waveform of the "
+                        "configuration given last at the running clock (in beats: every tick counted with the ticks_per_beat in force at "
+                        "that tick), or Timeline.lfo(name=...) did not find / create the LFO the model says",
             "implementation": {"init": res["init"], "segs": [{"value": r["value"], "same": r["same"], "n_lfos": r["n_lfos"],
                                                                "ticks": [v[0] for v in r["ticks"]][:40]} for r in res["segs"]]},
             "python": snippet_lfo_script(sc)})
@@ -1148,15 +1451,18 @@ def check(run):
     cases = gen_grid(run) + gen_traps(run, 6 if quick else 40) + gen_malformed(run)
     cases += gen_random(run, 170 if quick else 4000, 5 if quick else 40)
     cases += gen_reconfig(run, 60 if quick else 1200)
+    cases += gen_auto_retime(run, 40 if quick else 1000)
+    cases += gen_bind_equal(run, 36 if quick else 800)
     for i in range(0, len(cases), 1500):
         run_autos(run, cases[i:i + 1500])
     run_lfos(run, gen_lfos(run, 40 if quick else 400))
-    run_lfo_scripts(run, gen_lfo_scripts(run, 48 if quick else 500))
+    run_lfo_scripts(run, gen_lfo_scripts(run, 48 if quick else 500) + gen_lfo_retime(run, 30 if quick else 400))
     run.cov["rule"] = ("one case = one scenario on a fresh Timeline: an automation (range none/clip/wrap, initial, default_duration, 0-3 bindings) "
                        "driven by a sequence of move_to / move_by / jump_to / bind_to calls with ticks in between, or one LFO (frequency, range) "
                        "ticked for > 2 periods and read through PLFO from two scheduled tracks; every value after every operation and tick is "
                        "compared with the Coq model; or one LFO / automation history with re-configurations (attribute assignment, update, Timeline.lfo(name=existing), "
-                       "reset; range / boundaries / default_duration) at random ticks, observed after every operation and tick. "
+                       "reset; range / boundaries / default_duration; timeline.ticks_per_beat / clock source) at random ticks, observed after every operation and tick; "
+                       "or one automation with 2-5 bound targets of which 2-4 compare equal without being identical. "
                        "distinct by the full scenario; non-trivial = at least one tick was executed.")
 
 
